@@ -8,7 +8,7 @@
    unbounded N: a text of 2^64 characters cannot exist in the implementation, so they never fire. *)
 From Coq Require Import List NArith ZArith String Bool.
 From Gen Require Import Tables.
-From Model Require Import Base Names Flt F32 Matches Detect Declared Cd Md Md32 Layers SbLangs Jaro Jaro32.
+From Model Require Import Base Names Flt F32 Matches Detect Declared Cd Md Md32 Layers SbLangs Jaro Jaro32 Codecs.
 Import ListNotations.
 Open Scope N_scope.
 
@@ -42,4 +42,18 @@ Definition pipeline (B : base_oracles) : oracles F32ops := {|
   merge := fun ls => merge_coherence_ratios F32ops ls;
   sb_langs := sb_langs32;
   declared := any_specified_encoding;
+|}.
+
+(* the same with the modelled codecs (Model/Codecs.v: UTF-8, UTF-16LE/BE, every single-byte table) computed
+   by the model; only the CJK decoders are still asked of the oracle.  This is what DETECTFULL runs. *)
+Definition pipeline_dec (B : base_oracles) : oracles F32ops :=
+  let P := pipeline B in {|
+  sdecode := fun e b => match modelled_codec e with Some k => codec_strict k b | None => b_sdecode B e b end;
+  stest := fun e b => match modelled_codec e with Some k => codec_test k b | None => b_stest B e b end;
+  cdecode := fun e b => match modelled_codec e with Some k => codec_chunk k b | None => b_cdecode B e b end;
+  mess := mess F32ops P;
+  coh := coh F32ops P;
+  merge := merge F32ops P;
+  sb_langs := sb_langs F32ops P;
+  declared := declared F32ops P;
 |}.
